@@ -42,17 +42,25 @@ Proof.
   destruct c; simpl; auto. destruct (side_eqb to0 to); simpl; rewrite IH; reflexivity.
 Qed.
 
-(* ---------- generic invariant principle.  I st q out: q is the logical event queue. *)
+(* ---------- generic invariant principle.  I st q out: q is the logical event queue;
+   G st e: what the environment may deliver in state st (True for the universal theorems). *)
+Definition not_reply (e : event) : Prop := match e with EReply _ _ => False | _ => True end.
+
 Section Inv.
   Variable pol : policy.
+  Variable G : state -> event -> Prop.
   Variable I : state -> list event -> list cmd -> Prop.
   Hypothesis I_handle : forall st e q out st' o,
     I st (e :: q) out -> waiting st = false -> crashed st = false -> handle st e = (st', o) -> I st' q (out ++ o).
-  Hypothesis I_resume : forall st q out a err st' o,
-    I st q out -> waiting st = true -> crashed st = false -> resume st a err = (st', o) -> I st' q (out ++ o).
-  Hypothesis I_arrive : forall st q out e,
-    (match e with EReply _ _ => False | _ => True end) -> crashed st = false ->
+  Hypothesis I_direct : forall st e out st' o,
+    G st e -> not_reply e -> I st [] out -> waiting st = false -> crashed st = false ->
+    handle (env_arrive st e) e = (st', o) -> I st' [] (out ++ o).
+  Hypothesis I_enqueue : forall st q out e,
+    G st e -> not_reply e -> waiting st = true -> crashed st = false ->
     I st q out -> I (env_arrive st e) (q ++ [e]) out.
+  Hypothesis I_resume : forall st q out a a0 err st' o,
+    G st (EReply a0 err) -> I st q out -> waiting st = true -> crashed st = false ->
+    resume st a err = (st', o) -> I st' q (out ++ o).
   Hypothesis I_queue : forall st q out q', I st q out -> I (set_queue st q') q out.
 
   Definition Inv st out := I st (queue st) out /\ (waiting st = false -> crashed st = false -> queue st = []).
@@ -73,29 +81,28 @@ Section Inv.
         rewrite app_assoc. eapply IH; eauto.
   Qed.
 
-  Lemma I_step st out e st' o : Inv st out -> arrive pol st e = (st', o) -> Inv st' (out ++ o).
+  Lemma I_step st out e st' o : G st e -> Inv st out -> arrive pol st e = (st', o) -> Inv st' (out ++ o).
   Proof.
-    intros [HI HS] H. unfold arrive in H.
+    intros HG [HI HS] H. unfold arrive in H.
     destruct (crashed st) eqn:Hc; [inversion H; subst; rewrite app_nil_r; split; [exact HI|]; intros _ B; congruence|].
-    assert (Hgen : forall e0, (match e0 with EReply _ _ => False | _ => True end) ->
+    assert (Hgen : forall e0, G st e0 -> not_reply e0 ->
        (let st0 := env_arrive st e0 in if waiting st0 then (set_queue st0 (queue st0 ++ [e0]), []) else handle st0 e0) = (st', o) ->
        Inv st' (out ++ o)).
-    { intros e0 He0 H0. cbv zeta in H0.
-      pose proof (I_arrive _ _ _ e0 He0 Hc HI) as HA.
+    { intros e0 HG0 He0 H0. cbv zeta in H0.
       rewrite waiting_env_arrive in H0. destruct (waiting st) eqn:Hw.
-      - inversion H0; subst. rewrite app_nil_r, queue_env_arrive. split; [apply I_queue; exact HA|].
+      - pose proof (I_enqueue _ _ _ e0 HG0 He0 Hw Hc HI) as HA.
+        inversion H0; subst. rewrite app_nil_r, queue_env_arrive. split; [apply I_queue; exact HA|].
         simpl. intros A. change (waiting (env_arrive st e0) = false) in A. rewrite waiting_env_arrive in A. congruence.
-      - rewrite (HS eq_refl eq_refl) in HA. simpl in HA.
+      - rewrite (HS eq_refl eq_refl) in HI.
         assert (Hq : queue st' = []).
         { apply handle_frame in H0 as [Hq _]. rewrite Hq, queue_env_arrive. apply HS; reflexivity. }
-        split; [rewrite Hq; eapply I_handle; eauto; [rewrite waiting_env_arrive|rewrite crashed_env_arrive]; assumption
-               | intros _ _; exact Hq]. }
+        split; [rewrite Hq; eapply I_direct; eauto | intros _ _; exact Hq]. }
     destruct e as [|f d|f|fc d|a err];
-      [exact (Hgen EStart Logic.I H) | exact (Hgen (EData f d) Logic.I H) | exact (Hgen (EClosed f) Logic.I H)
-      | exact (Hgen (EInject fc d) Logic.I H) |].
+      [exact (Hgen EStart HG Logic.I H) | exact (Hgen (EData f d) HG Logic.I H) | exact (Hgen (EClosed f) HG Logic.I H)
+      | exact (Hgen (EInject fc d) HG Logic.I H) |].
     destruct (waiting st) eqn:Hw.
     - destruct (resume st (pol (messages (fl st)) a) err) as [st1 o1] eqn:Hr.
-      pose proof (I_resume _ _ _ _ _ _ _ HI Hw Hc Hr) as HI1.
+      pose proof (I_resume _ _ _ _ _ _ _ _ HG HI Hw Hc Hr) as HI1.
       apply resume_frame in Hr as (Hq & Hcr & _).
       destruct (waiting st1) eqn:Hw1.
       + inversion H; subst. split; [rewrite Hq; exact HI1 | congruence].
@@ -105,14 +112,51 @@ Section Inv.
     - inversion H; subst. rewrite app_nil_r. split; [assumption | intros _ _; apply HS; reflexivity].
   Qed.
 
-  Lemma I_run : forall evs st out st' o, Inv st out -> run pol st evs = (st', o) -> Inv st' (out ++ o).
+  Fixpoint guarded (st : state) (evs : list event) : Prop :=
+    match evs with
+    | [] => True
+    | e :: r => G st e /\ guarded (fst (arrive pol st e)) r
+    end.
+
+  Lemma I_run : forall evs st out st' o,
+    guarded st evs -> Inv st out -> run pol st evs = (st', o) -> Inv st' (out ++ o).
   Proof.
-    induction evs as [|e evs IH]; intros st out st' o HI H; simpl in H.
+    induction evs as [|e evs IH]; intros st out st' o HG HI H; simpl in H.
     - inversion H; subst. rewrite app_nil_r. exact HI.
-    - destruct (arrive pol st e) as [st1 o1] eqn:Ha. destruct (run pol st1 evs) as [st2 o2] eqn:Hr.
-      inversion H; subst. rewrite app_assoc. eapply IH; [eapply I_step; eauto | exact Hr].
+    - destruct HG as [HG1 HG2].
+      destruct (arrive pol st e) as [st1 o1] eqn:Ha. destruct (run pol st1 evs) as [st2 o2] eqn:Hr.
+      inversion H; subst. rewrite app_assoc. eapply IH; [exact HG2 | eapply I_step; eauto | exact Hr].
   Qed.
 End Inv.
+
+Definition Gtrue : state -> event -> Prop := fun _ _ => True.
+Lemma guarded_true pol evs : forall st, guarded pol Gtrue st evs.
+Proof. induction evs as [|e evs IH]; intros st; simpl; auto. split; [exact Logic.I | apply IH]. Qed.
+
+(* unguarded instance: I_direct and I_enqueue follow from an arrival lemma plus I_handle *)
+Section InvU.
+  Variable pol : policy.
+  Variable I : state -> list event -> list cmd -> Prop.
+  Hypothesis I_handle : forall st e q out st' o,
+    I st (e :: q) out -> waiting st = false -> crashed st = false -> handle st e = (st', o) -> I st' q (out ++ o).
+  Hypothesis I_resume : forall st q out a err st' o,
+    I st q out -> waiting st = true -> crashed st = false -> resume st a err = (st', o) -> I st' q (out ++ o).
+  Hypothesis I_arrive : forall st q out e,
+    not_reply e -> crashed st = false -> I st q out -> I (env_arrive st e) (q ++ [e]) out.
+  Hypothesis I_queue : forall st q out q', I st q out -> I (set_queue st q') q out.
+
+  Lemma I_run_u : forall evs st out st' o,
+    Inv I st out -> run pol st evs = (st', o) -> Inv I st' (out ++ o).
+  Proof.
+    intros evs st out st' o HI H.
+    refine (I_run pol Gtrue I I_handle _ _ _ I_queue evs st out st' o (guarded_true pol evs st) HI H).
+    - intros s e ou s' o' _ He HI0 Hw Hc Hh.
+      eapply I_handle; [apply (I_arrive s [] ou e He Hc HI0) | rewrite waiting_env_arrive; exact Hw
+                       | rewrite crashed_env_arrive; exact Hc | exact Hh].
+    - intros s q ou e _ He _ Hc HI0. apply I_arrive; assumption.
+    - intros s q ou a _ err s' o' _ HI0 Hw Hc Hr. eapply I_resume; eauto.
+  Qed.
+End InvU.
 
 (* ---------- T1: exact relaying *)
 Definition rec_of (fc : bool) (ms : list (bool * bytes)) : list bytes :=
@@ -137,21 +181,18 @@ Qed.
 Lemma messages_apply_kill f a : messages (apply_kill f a) = messages f.
 Proof. unfold apply_kill. destruct (kill a && killable f); reflexivity. Qed.
 
-Ltac flow_on Hi := unfold has_flow in *; rewrite Hi in *; simpl negb in *; cbv iota in *.
+Ltac flow_on Hi := unfold has_flow in *; try rewrite Hi in *; simpl negb in *; cbv iota in *.
 
 Lemma I1_handle st e q out st' o :
   I1 st (e :: q) out -> waiting st = false -> crashed st = false -> handle st e = (st', o) -> I1 st' q (out ++ o).
 Proof.
   intros (Hi & Hp & Hs) Hw _ H. unfold waiting in Hw. destruct (wait st) eqn:Ew; try discriminate.
   unfold I1, sent_msgs, pend_ok in *. rewrite Ew in *.
-  unfold_layer. flow_on Hi.
-  split_run H; inversion H; subst; clear H; simpl; rewrite ?Ew;
-    (split; [assumption|split; [try exact Logic.I; try (destruct from; reflexivity); try (destruct fc; reflexivity)|]]);
-    intros fc'; rewrite ?sends_app; simpl; rewrite ?app_nil_r; try apply Hs;
-    unfold env_cmd, set_conn; simpl;
-    repeat match goal with |- context [if ?b then _ else _] => destruct b end;
-    repeat match goal with |- context [match ?x with Client => _ | Server => _ end] => destruct x end;
-    simpl; rewrite ?Ew; try apply Hs.
+  unfold_layer. unfold env_cmd, set_conn in *. flow_on Hi.
+  split_run H; inversion H; subst; clear H; simpl; rewrite ?Ew.
+  all: split; [exact Hi|].
+  all: split; [try exact Logic.I; try (destruct from; reflexivity); try (destruct from_client; reflexivity)|].
+  all: intros fc'; rewrite ?sends_app; simpl; rewrite ?app_nil_r; try apply Hs.
 Qed.
 
 Lemma I1_resume st q out a err st' o :
@@ -160,30 +201,26 @@ Proof.
   intros (Hi & Hp & Hs) _ _ H.
   unfold I1, sent_msgs, pend_ok in *.
   unfold resume in H. destruct (wait st) eqn:Ew.
-  - inversion H; subst. rewrite app_nil_r, Ew. auto.
-  - unfold_layer. flow_on Hi.
-    split_run H; inversion H; subst; clear H; simpl; (split; [assumption|split; [exact Logic.I|]]);
-      intros fc'; rewrite sends_app, messages_apply_kill; simpl; rewrite app_nil_r; apply Hs.
-  - unfold_layer. flow_on Hi.
-    split_run H; inversion H; subst; clear H; simpl; (split; [assumption|split; [exact Logic.I|]]);
-      intros fc'; rewrite sends_app; simpl; rewrite app_nil_r; apply Hs.
-  - unfold_layer. flow_on Hi.
-    split_run H; inversion H; subst; clear H; simpl; (split; [assumption|split; [exact Logic.I|]]);
-      intros fc'; rewrite sends_app, messages_apply_kill; simpl; rewrite ?app_nil_r; apply Hs.
-  - unfold_layer. inversion H; subst; clear H. simpl.
+  6: { (* end hook *)
+    unfold_layer. inversion H; subst; clear H. simpl.
+    split; [assumption|split; [exact Logic.I|]]. intros fc'.
+    rewrite sends_app, messages_apply_kill. simpl. rewrite app_nil_r. apply Hs. }
+  5: { (* message hook: the edited content is what is sent and what stays recorded *)
+    unfold_layer. inversion H; subst; clear H. simpl.
     split; [assumption|split; [exact Logic.I|]]. intros fc'.
     rewrite sends_app, messages_apply_kill. specialize (Hs fc').
     destruct (messages (fl st)) as [|[fc c0] ms] eqn:Em; [contradiction|]. simpl in Hs. subst to.
     unfold last_content, apply_edit. rewrite messages_apply_kill, Em. simpl.
-    destruct (edit a) as [c|]; simpl; rewrite rec_of_cons, Hs; simpl;
-      destruct fc, fc'; reflexivity.
-  - unfold_layer. inversion H; subst; clear H. simpl.
-    split; [assumption|split; [exact Logic.I|]]. intros fc'.
-    rewrite sends_app, messages_apply_kill. simpl. rewrite app_nil_r. apply Hs.
+    destruct (edit a) as [c|]; simpl; rewrite ?Em; rewrite rec_of_cons, Hs; simpl;
+      destruct fc, fc'; reflexivity. }
+  all: unfold_layer; unfold env_cmd, set_conn in *; flow_on Hi.
+  all: split_run H; inversion H; subst; clear H; simpl; rewrite ?Ew.
+  all: split; [exact Hi|split; [exact Logic.I|]].
+  all: intros fc'; rewrite ?sends_app, ?messages_apply_kill; simpl; rewrite ?app_nil_r; apply Hs.
 Qed.
 
 Lemma I1_arrive st q out e :
-  (match e with EReply _ _ => False | _ => True end) -> crashed st = false -> I1 st q out -> I1 (env_arrive st e) (q ++ [e]) out.
+  not_reply e -> crashed st = false -> I1 st q out -> I1 (env_arrive st e) (q ++ [e]) out.
 Proof.
   intros _ _ H. destruct e as [|f d|f|fc d|a err]; simpl; try exact H.
   destruct (pr (cf st)), f; exact H.
@@ -203,7 +240,7 @@ Lemma exact_relay pol c evs :
   forall fc, sends (side_of (negb fc)) out = rec_of fc (sent_msgs st).
 Proof.
   intros Hi. destruct (run pol (init c) evs) as [st out] eqn:H.
-  pose proof (I_run pol I1 I1_handle I1_resume I1_arrive I1_queue evs _ _ _ _ (I1_init c Hi) H) as [(_ & _ & Hs) _].
+  pose proof (I_run_u pol I1 I1_handle I1_resume I1_arrive I1_queue evs _ _ _ _ (I1_init c Hi) H) as [(_ & _ & Hs) _].
   exact Hs.
 Qed.
 
@@ -239,36 +276,41 @@ Proof.
   destruct (is_relay c && b); [reflexivity|apply IH].
 Qed.
 
+Ltac fin2 :=
+  repeat match goal with
+  | H : negb (ignore _) = _ |- _ => rewrite H
+  | H : ignore _ = _ |- _ => rewrite H
+  end; simpl; auto.
+
 Lemma I2_handle st e q out st' o :
   I2 st (e :: q) out -> waiting st = false -> crashed st = false -> handle st e = (st', o) -> I2 st' q (out ++ o).
 Proof.
-  intros (Hp & He) Hw _ H. unfold waiting in Hw. destruct (wait st) eqn:Ew; try discriminate.
-  unfold I2, wait_ph_ok, ended in *. rewrite end_once_app, He. rewrite Ew in *. clear He.
-  unfold_layer. unfold has_flow in *.
-  split_run H; inversion H; subst; clear H; simpl; rewrite ?Ew;
-    unfold env_cmd, set_conn; simpl;
-    repeat match goal with |- context [if ?b then _ else _] => destruct b eqn:? end;
-    repeat match goal with |- context [match ?x with Client => _ | Server => _ end] => destruct x end;
-    simpl; rewrite ?Ew; simpl; auto;
-    repeat match goal with H : ph _ = _ |- _ => rewrite H end; simpl; auto;
-    try (destruct (ignore (cf st)); simpl; auto; fail).
+  intros (Hp & He) Hw _ H. unfold waiting in Hw. destruct (wait st) eqn:Ew; try discriminate. clear Hw Hp.
+  unfold I2. rewrite end_once_app, He. clear He.
+  unfold handle in H.
+  destruct (ph st) eqn:Eph; destruct e as [|f d|f|fc d|a err]; simpl in H.
+  all: unfold_layer; unfold env_cmd, set_conn, has_flow in *.
+  all: split_run H; inversion H; subst; clear H.
+  all: unfold wait_ph_ok, ended, has_flow; simpl in *; rewrite ?Ew, ?Eph; simpl.
+  all: fin2.
 Qed.
 
 Lemma I2_resume st q out a err st' o :
   I2 st q out -> waiting st = true -> crashed st = false -> resume st a err = (st', o) -> I2 st' q (out ++ o).
 Proof.
   intros (Hp & He) _ _ H.
-  unfold I2, wait_ph_ok, ended in *. rewrite end_once_app, He. clear He.
-  unfold resume in H. unfold_layer. unfold has_flow in *.
-  destruct (wait st) eqn:Ew;
-  split_run H; inversion H; subst; clear H; simpl; rewrite ?Ew, ?Hp; simpl;
-    unfold env_cmd, set_conn; simpl; rewrite ?Hp; simpl; auto;
-    try (destruct (ignore (cf st)); simpl; auto; fail);
-    try (destruct (ph st); simpl; auto; fail).
+  unfold I2. rewrite end_once_app, He. clear He.
+  unfold resume in H. unfold wait_ph_ok in Hp.
+  destruct (wait st) eqn:Ew.
+  all: unfold_layer; unfold env_cmd, set_conn, has_flow in *.
+  all: split_run H; inversion H; subst; clear H.
+  all: unfold wait_ph_ok, ended, has_flow; simpl in *; rewrite ?Ew, ?Hp; simpl.
+  all: fin2.
+  rewrite andb_false_r. auto.
 Qed.
 
 Lemma I2_arrive st q out e :
-  (match e with EReply _ _ => False | _ => True end) -> crashed st = false -> I2 st q out -> I2 (env_arrive st e) (q ++ [e]) out.
+  not_reply e -> crashed st = false -> I2 st q out -> I2 (env_arrive st e) (q ++ [e]) out.
 Proof.
   intros _ _ H. destruct e as [|f d|f|fc d|a err]; simpl; try exact H.
   destruct (pr (cf st)), f; exact H.
@@ -281,6 +323,6 @@ Proof.
   destruct (run pol (init c) evs) as [st out] eqn:H.
   assert (H0 : Inv I2 (init c) []).
   { split; [|reflexivity]. split; [exact Logic.I|]. unfold ended, has_flow. simpl. rewrite andb_false_r. reflexivity. }
-  pose proof (I_run pol I2 I2_handle I2_resume I2_arrive (fun _ _ _ _ h => h) evs _ _ _ _ H0 H) as [(Hp & He) _].
+  pose proof (I_run_u pol I2 I2_handle I2_resume I2_arrive (fun _ _ _ _ h => h) evs _ _ _ _ H0 H) as [(Hp & He) _].
   split; assumption.
 Qed.
